@@ -21,7 +21,7 @@ ID = "C03"
 PROP_FILES = ["Props/C03.v"]
 RUN_FILES = ["Run/C03Run.v"]
 RULE = ("(A) generated definition/use programs (random DAGs over <=9 names with forward references, planted undefined symbol, "
-        "cycle, zero divisor; additive chains of depth 1..300 and non-linear chains of depth 1..30 in ascending, descending and "
+        "cycle, zero divisor; additive chains of depth 1..300, plain alias chains 'a0 = a1 / ... / aN = 5' (no operator; N in 1,2,30,63,64,65,100,300) and non-linear chains of depth 1..30 in ascending, descending and "
         "shuffled definition order with the use before, between and after) assembled by pdpy11 and judged in coqc against "
         "Model.LazyEval.lazy_run and final_run; the Gallina move_def is compared with the harness's on the same programs. "
         "(B) metamorphic on the real code: every/sampled placement move_def(p,i,j) and permute_defs of the movable top-level "
@@ -170,11 +170,13 @@ def gen_dag(rng):
 
 
 def chain(depth, nonlinear, start):
-    """definitions x0 = start ; x{i+1} = f(x{i}) each adding 1; returns (defs, last name, value)"""
+    """definitions x0 = start ; x{i+1} = f(x{i}) each adding 1 (nonlinear == "alias": plain x{i+1} = x{i})"""
     defs = [("def", "x0", ("c", start))]
     for i in range(depth):
         prev = ("s", f"x{i}")
-        if nonlinear:
+        if nonlinear == "alias":
+            e = prev
+        elif nonlinear:
             e = ("+", ("/", ("*", prev, ("c", 2)), ("c", 2)), ("c", 1))
         else:
             e = ("+", prev, ("c", 1))
@@ -208,13 +210,14 @@ def gen_model_cases(rng, tier):
         cases.append((kind, ss))
     add_depths = [1, 2, 17, 100, 300] if tier == "quick" else [1, 2, 3, 17, 64, 100, 200, 300]
     nl_depths = [1, 5, 30] if tier == "quick" else [1, 2, 5, 12, 30]
-    for nonlinear, depths in ((False, add_depths), (True, nl_depths)):
+    al_depths = [1, 2, 64, 65] if tier == "quick" else [1, 2, 30, 63, 64, 65, 100, 300]
+    for nonlinear, depths in ((False, add_depths), (True, nl_depths), ("alias", al_depths)):
         for d in depths:
             defs, last, val = chain(d, nonlinear, 3)
             for order in ("asc", "desc", "shuf"):
                 for pos in ("before", "between", "after"):
                     ss = place(order_defs(rng, defs, order), [("use", ("s", last)), ("use", ("+", ("s", "x0"), ("s", last)))], pos)
-                    cases.append((f"chain-{'nl' if nonlinear else 'add'}-{d}-{order}-{pos}", ss))
+                    cases.append((f"chain-{'alias' if nonlinear == 'alias' else ('nl' if nonlinear else 'add')}-{d}-{order}-{pos}", ss))
     return cases
 
 
@@ -542,9 +545,13 @@ NL_FORMS = [(lambda p, t=t: t.replace("{p}", p)) for t in NL_TEXT]
 
 
 def chain_text(depth, nonlinear, target, form=0):
-    lines = [f"x0 = {oct(target - depth)[2:] if target - depth >= 0 else '-' + oct(depth - target)[2:]}"]
+    """nonlinear: False = additive links, True = operator links, "alias" = plain 'x{i+1} = x{i}' (no operator at all)"""
+    start = target if nonlinear == "alias" else target - depth
+    lines = [f"x0 = {oct(start)[2:] if start >= 0 else '-' + oct(-start)[2:]}"]
     for i in range(depth):
-        if nonlinear:
+        if nonlinear == "alias":
+            lines.append(f"x{i + 1} = x{i}")
+        elif nonlinear:
             lines.append(f"x{i + 1} = {NL_FORMS[(form + i) % len(NL_FORMS)](f'x{i}')}")
         else:
             lines.append(f"x{i + 1} = x{i} + 1")
@@ -556,7 +563,9 @@ def chain_groups(rng, tier):
     for ci, (cname, tmpl, target) in enumerate(CONTEXTS):
         add_depths = [1, 17] + ([300] if (tier != "quick" or ci % 4 == 0) else [60])
         nl_depths = [2] + ([30] if (tier != "quick" or ci % 3 == 0) else [9])
-        for nonlinear, depths in ((False, add_depths), (True, nl_depths)):
+        alias_all = [1, 2, 30, 63, 64, 65, 100, 300]
+        alias_depths = alias_all if (tier != "quick" or ci % 4 == 1) else [2, 65]
+        for nonlinear, depths in ((False, add_depths), (True, nl_depths), ("alias", alias_depths)):
             for d in depths:
                 dl, last = chain_text(d, nonlinear, target, form=ci)
                 use = tmpl.replace("{{", "{").replace("}}", "}").replace("{X}", last).split("\n")
@@ -573,7 +582,7 @@ def chain_groups(rng, tier):
                             rng.shuffle(dd)
                         text = "\n".join(place(dd, use, pos)) + "\n"
                         variants.append((f"{order}/{pos}", [("t.mac", text)], None))
-                groups.append({"key": f"chain:{cname}:{'nl' if nonlinear else 'add'}:{d}", "base": ([("t.mac", base)], None), "variants": variants})
+                groups.append({"key": f"chain:{cname}:{'alias' if nonlinear == 'alias' else ('nl' if nonlinear else 'add')}:{d}", "base": ([("t.mac", base)], None), "variants": variants})
     return groups
 
 
